@@ -142,6 +142,38 @@ class Delegating:
         return "Delegating()"
 
 
+class Everything:
+    """answers EVERY attribute name (dunder names and the engine's marker names included), every subscript, every call
+    (Mock-like / lazy proxy); not iterable, not awaitable, no length: those protocols live on the type"""
+    __iter__ = None
+    __contains__ = None
+
+    def __init__(self, path="E"):
+        object.__setattr__(self, "_path", path)
+
+    def __getattr__(self, name):
+        return Everything(object.__getattribute__(self, "_path") + "." + name)
+
+    def __getitem__(self, k):
+        return Everything(object.__getattribute__(self, "_path") + "[%r]" % (k,))
+
+    def __call__(self, *a, **kw):
+        return Everything(object.__getattribute__(self, "_path") + "(%d,%s)" % (len(a), ",".join(sorted(kw))))
+
+    def __repr__(self):
+        return "<" + object.__getattribute__(self, "_path") + ">"
+
+
+class DotDict(dict):
+    """dict with attribute access; unknown names (ANY name) give an empty DotDict -- a common "dot-dict" record"""
+
+    def __getattr__(self, name):
+        try:
+            return self[name]
+        except KeyError:
+            return DotDict()
+
+
 class Falsy:
     def __bool__(self):
         return False
@@ -198,6 +230,7 @@ def wild_data(seed, log):
         "ns0": types.SimpleNamespace(a=1, k="<ns>"),
         "o1": o1, "o2": o2, "ar0": Raises("rt", RuntimeError, KeyError), "ar1": Raises("sub", MyAttrError, MyLookup), "ar2": Raises("val", AttributeError, ValueError),
         "ar3": Raises("attr-in-item", AttributeError, AttributeError), "ar4": Raises("type", AttributeError, TypeError), "po0": PropObj(), "dl0": Delegating(),
+        "ev0": Everything(), "dd1": DotDict(a=DotDict(k="deep", b=DotDict()), k=r.choice([0, "v"]), zz=[1, 2]),
         "fz0": Falsy(), "ln0": Len0(), "fa": Rec("fa", log), "fb": Rec("fb", log),
     }
 
@@ -206,7 +239,7 @@ NUM = ["i0", "fi", "f0", "b1", "b0"]
 STR = ["s0", "m0", "us0", "us1"]
 SEQ = ["l0", "t0", "gi0", "it0", "gen0", "itr0", "r0"]
 MAP = ["d0", "mp0", "mpp0", "od0", "dd0"]
-OBJ = ["o1", "o2", "ns0", "ar0", "ar1", "ar2", "ar3", "ar4", "po0", "dl0"]
+OBJ = ["o1", "o2", "ns0", "ar0", "ar1", "ar2", "ar3", "ar4", "po0", "dl0", "ev0", "ev0", "dd1", "dd1"]
 TRUTH = ["fz0", "ln0", "n0", "u0"]
 
 
@@ -255,6 +288,10 @@ BIN = {"add": operator.add, "sub": operator.sub, "mul": operator.mul, "div": ope
        "mod": operator.mod, "pow": operator.pow}
 CMP = {"eq": operator.eq, "ne": operator.ne, "lt": operator.lt, "lteq": operator.le, "gt": operator.gt, "gteq": operator.ge,
        "in": lambda a, b: a in b, "notin": lambda a, b: a not in b}
+
+
+class Unspecified(Exception):
+    """the documented semantics leaves the result open"""
 
 
 class Ref:
@@ -377,6 +414,9 @@ class Ref:
                         if k in kw:
                             raise TypeError("multiple values for keyword argument")
                     kw.update(extra)
+            if self.sandboxed and (getattr(f, "unsafe_callable", False) or getattr(f, "alters_data", False)):
+                from jinja2.exceptions import SecurityError
+                raise SecurityError("unsafe callable")       # the documented marker attributes of @unsafe / Django-style alters_data
             return f(*args, **kw)
         if t == "F":
             v = ev(e[1])
@@ -471,7 +511,11 @@ class Ref:
         if name == "callable":
             return callable(v)
         if name == "sameas":
-            return v is args[0]
+            o = args[0]
+            if v is not o or type(v) in (float, str, tuple, bytes, complex, int) and not isinstance(v, bool) and not (type(v) is int and -5 <= v <= 256):
+                if type(v) is type(o) and type(v) in (float, str, tuple, bytes, complex, int) and v == o:
+                    raise Unspecified()      # identity of two equal immutable values (literal vs data) is the interpreter's business
+            return v is o
         if name in ("eq", "equalto", "=="):
             return v == args[0]
         if name in ("ne", "!="):
@@ -587,7 +631,7 @@ class RGen:
 
     def call(self, d):
         r = self.r
-        f = self.name(["fa", "fb"]) if r.random() < 0.75 else self.name(["u0", "n0", "i0"]) if r.random() < 0.4 else self.access(d)
+        f = self.name(["fa", "fb", "fa", "fb", "ev0"]) if r.random() < 0.75 else self.name(["u0", "n0", "i0"]) if r.random() < 0.4 else self.access(d)
         args = [self.any(d - 1) for _ in range(r.randint(0, 2))]
         kw = [(k, self.any(d - 1)) for k in r.sample(["a", "k", "p"], r.randint(0, 2))]
         if r.random() < 0.3:
@@ -740,6 +784,8 @@ def ref_run(kind, ucls, entry, e, seeds):
                 out.append(("ok", ADDR.sub("0x?", str(markupsafe.escape(v)) if kind == "autoescape" else str(v)), log))
             else:
                 out.append(("ok", canon(v), log))
+        except Unspecified:
+            out.append(("skip",))
         except RecursionError:
             out.append(("err", "RecursionError"))
         except Exception as ex:
@@ -749,7 +795,7 @@ def ref_run(kind, ucls, entry, e, seeds):
 
 def entries_for(kind):
     if kind == "async":
-        return ["module", "render", "generate"]       # compile_expression is documented as not usable with async environments
+        return ENTRIES                                  # compile_expression included (sync call into an async environment, fix 68bd5a4)
     if kind == "native":
         return ["ce", "ce_none", "module", "history"]  # native rendering returns Python objects: not this property
     return ENTRIES
@@ -804,6 +850,57 @@ def run_ref_stream(ctx):
         ctx.count("ref_" + ("value" if nontriv else "error"))
         if ok:
             ctx.validated()
+
+
+# ------------------------------------------------------------------ every value kind on every axis (systematic, small)
+def axis_consumers():
+    C = lambda v: ("C", v)  # noqa: E731
+    N = lambda n: ("N", n)  # noqa: E731
+    F = lambda u, f, *a: ("F", u, f, list(a))  # noqa: E731
+    T = lambda u, t, *a: ("is", u, t, list(a))  # noqa: E731
+    cs = [lambda u: F(u, "list"), lambda u: F(u, "first"), lambda u: F(u, "last"), lambda u: F(u, "join", C(",")), lambda u: F(u, "length"), lambda u: F(u, "sum"),
+          lambda u: F(u, "string"), lambda u: F(u, "upper"), lambda u: F(u, "abs"), lambda u: F(u, "default", C(1)), lambda u: F(u, "default", C(1), C(True)), lambda u: F(u, "safe"),
+          lambda u: (".", u, "a"), lambda u: ("[]", u, C("a")), lambda u: (".i", u, 0), lambda u: ("[]", u, C(0)), lambda u: ("[]", u, N("us1")), lambda u: ("sl", u, C(1), None, None),
+          lambda u: ("call", u, [], []), lambda u: ("call", u, [C(1)], [("k", C(2))]), lambda u: ("call", N("fa"), [u], []), lambda u: ("callx", N("fa"), [], [], u, None),
+          lambda u: ("callx", N("fa"), [], [], None, u), lambda u: ("call", N("fa"), [], [("k", u)]), lambda u: ("call", (".", u, "a"), [], []), lambda u: (".", ("call", N("fa"), [u], []), "a"),
+          lambda u: (".", F(u, "default", C(1)), "a"), lambda u: (".", (".", u, "a"), "b"), lambda u: ("[]", ("[]", u, C("a")), C("k")), lambda u: (".", ("[]", u, C(0)), "a"),
+          lambda u: T(u, "defined"), lambda u: T(u, "iterable"), lambda u: T(u, "mapping"), lambda u: T(u, "sequence"), lambda u: T(u, "callable"), lambda u: T(u, "string"),
+          lambda u: T(u, "number"), lambda u: T(u, "none"), lambda u: T(u, "sameas", u), lambda u: T(C(1), "in", u), lambda u: ("cmp", C(1), [("in", u)]), lambda u: ("cmp", u, [("in", ("L", [C(1), u]))]),
+          lambda u: ("!", u), lambda u: ("&", u, C(1)), lambda u: ("|", u, C(1)), lambda u: ("?", u, C(1), C(2)), lambda u: ("?", C(0), C(1), u), lambda u: ("~", [u, C("x")]),
+          lambda u: ("B", "add", u, C(1)), lambda u: ("B", "mul", u, C(2)), lambda u: ("B", "mod", C("%s"), u), lambda u: ("U", "neg", u), lambda u: ("cmp", u, [("eq", u)]),
+          lambda u: ("cmp", u, [("lt", C(1))]), lambda u: ("L", [u]), lambda u: (".", ("D", [(C("k"), u)]), "k"), lambda u: F(("L", [u, u]), "first"), lambda u: F(("L", [u]), "join", C("-")),
+          lambda u: F(("L", [("L", [u])]), "sum", ), lambda u: u]
+    return cs
+
+
+def run_axis_stream(ctx):
+    """every name of the data pool x every consumer (iteration, attribute, subscript, slice, call, argument, star argument,
+    tests, containment, truth, string conversion, arithmetic, comparison, collection member) under the async environment and one
+    more environment kind in rotation, every undefined class in rotation"""
+    import warnings
+    warnings.simplefilter("ignore", SyntaxWarning)
+    names = sorted(wild_data(0, [])) + ["u0"]
+    ucs = undefined_classes()
+    cs = axis_consumers()
+    others = [k for k in ENV_KINDS if k != "async"]
+    i = 0
+    shown = collections.Counter()
+    for name in names:
+        for cons in cs:
+            e = cons(("N", name))
+            for kind in ("async", others[i % len(others)]):
+                ucls = ucs[i % len(ucs)]
+                ents = entries_for(kind)
+                entry = ents[i % len(ents)]
+                i += 1
+                seeds = [1000 + i]
+                ok, ref = run_one(ctx, e, kind, ucls, entry, seeds, report=shown[kind] < 3)
+                if not ok:
+                    shown[kind] += 1
+                ctx.case(key=("axis", X.to_src(e), kind, entry))
+                ctx.count("axis_" + kind)
+                if ok:
+                    ctx.validated()
 
 
 def replay(ctx, case):
